@@ -1731,6 +1731,41 @@ pub fn apply(disk: &mut Disk, s: &Surgery) -> Result<(), String> {
             disk.tables.insert(tag_from_str("gvar"), Rc::new(nv));
             Ok(())
         }
+        Surgery::InstallAvar { variant } => {
+            let fvar = disk.tables.get(&tag_from_str("fvar")).ok_or("surgery: no fvar")?.clone();
+            let axes = usize::from(be16(&fvar, 8).ok_or("surgery: short fvar")?);
+            if axes == 0 || disk.tables.contains_key(&tag_from_str("avar")) {
+                return Err("surgery: avar not applicable".into());
+            }
+            let mut t = Vec::new();
+            t.extend_from_slice(&[0, 1, 0, 0, 0, 0]);
+            t.extend_from_slice(&(axes as u16).to_be_bytes());
+            for a in 0..axes {
+                let v = variant >> (3 * a);
+                // extra points on each side of 0, mapped through a bend
+                let extra = (v % 4) as i32; // 0..3 per side
+                let mut maps: Vec<(i16, i16)> = vec![(-0x4000, -0x4000)];
+                for k in 1..=extra {
+                    let from = -0x4000 + 0x4000 * k / (extra + 1);
+                    let to = -0x4000 + (0x4000 * k / (extra + 1)) * 3 / 4;
+                    maps.push((from as i16, to as i16));
+                }
+                maps.push((0, 0));
+                for k in 1..=extra {
+                    let from = 0x4000 * k / (extra + 1);
+                    let to = from / 2;
+                    maps.push((from as i16, to as i16));
+                }
+                maps.push((0x4000, 0x4000));
+                t.extend_from_slice(&(maps.len() as u16).to_be_bytes());
+                for (f, to) in maps {
+                    t.extend_from_slice(&f.to_be_bytes());
+                    t.extend_from_slice(&to.to_be_bytes());
+                }
+            }
+            disk.tables.insert(tag_from_str("avar"), Rc::new(t));
+            Ok(())
+        }
         Surgery::InstallCvar { num_cvts, variant } => {
             let fvar = disk.tables.get(&tag_from_str("fvar")).ok_or("surgery: no fvar")?.clone();
             let axes = usize::from(be16(&fvar, 8).ok_or("surgery: short fvar")?);
